@@ -57,6 +57,9 @@ SHAPES = [
     ("inv_stringhashset", "varlink/src/lib.rs", ("inventory", "StringHashSet"), ["C08", "C17", "C19"]),
     ("inv_wire_structs", "varlink/src/lib.rs", ("inventory", "(?:Request|Reply|ServiceInfo|ErrorKind|Error)"), ["C06", "C07", "C17"]),
     ("inv_server", "varlink/src/server.rs", ("inventory", "(?:ThreadPool|Worker|Listener)"), ["C13", "C14", "C15", "C16"]),
+    # every public struct / enum of the runtime crate's lib.rs with the attributes in front of it (derive lists, serde container
+    # attributes): dropping a derive in favour of a hand-written impl, or adding deny_unknown_fields, changes the wire format
+    ("decls_lib", "varlink/src/lib.rs", ("decls", None), ["C06", "C07", "C17"]),
 ]
 
 
@@ -76,6 +79,10 @@ def digest(root):
         src = open(p, encoding="utf-8").read()
         if header is None:
             body = src
+        elif isinstance(header, tuple) and header[0] == "decls":
+            code = re.sub(r"/\*.*?\*/", "", re.sub(r"//[^\n]*", "", src), flags=re.S)
+            ds = re.findall(r"((?:#\[[^\]]*\]\s*)*)pub\s+(struct|enum)\s+(\w+[^{;(]*)", code)
+            body = "\n".join(sorted(norm(a_ + k_ + n_) for a_, k_, n_ in ds))
         elif isinstance(header, tuple):
             code = re.sub(r"/\*.*?\*/", "", re.sub(r"//[^\n]*", "", src), flags=re.S)
             heads = re.findall(r"(?m)^\s*((?:unsafe\s+)?impl\b[^{;]*?\b%s\b[^{;]*?)\{" % header[1], code)
